@@ -263,3 +263,8 @@ void _ZNK12QXmppElement5toXmlEP16QXmlStreamWriter(char *self, char *w) { struct 
 void _ZN5QXmpp7Private16parseHostAddressERK7QString(char *ret, char *addr) { uint32_t port = vp_u32(); uint32_t len = vp_u32(); uint16_t c0 = vp_u16(), c1 = vp_u16(), c2 = vp_u16(); ASSUME(len <= 3);
   QAD *d = qs_new(len, 3); struct qs *q = (struct qs*)d; REF(d) = (uint32_t)-1; q->data[0] = c0; q->data[1] = c1; q->data[2] = c2; q->exact = 1; q->sid = SID_PACK(q->data, len);
   *(QAD**)ret = d; *(uint32_t*)(ret + 8) = len == 0 ? (uint32_t)-1 : port; }
+/* text of CONCRETE length (1..3) with arbitrary units, and an attribute that is present on every path: used where the emptiness of a value decides the
+   length of a list in the parsed object (QXmppExtendedAddress::isValid), so that one instance has a concretely valid entry */
+void vp_c02_fixed_text(char *out, uint32_t len) { uint16_t c0 = vp_u16(), c1 = vp_u16(), c2 = vp_u16(); ASSERT(len >= 1 && len <= 3, "C02 env: fixed text length"); QAD *d = qs_new(len, 3); struct qs *q = (struct qs*)d; REF(d) = (uint32_t)-1;
+  q->data[0] = c0; q->data[1] = c1; q->data[2] = c2; q->exact = 1; q->sid = SID_PACK(q->data, len); *(QAD**)out = d; }
+void vp_c02_force_attr(char *el, char *name, char *val) { struct dnode *n = DN(el); int s = vpl_attr_slot(*(QAD**)name, 1); if (!n->has[s]) n->nattr++; n->has[s] = 1; n->av[s] = *(QAD**)val; }
